@@ -2,8 +2,13 @@
 from harness._compute import search_with, sym_correspondence
 
 PROPERTY = "C02"
-LEAN_TARGETS = ['VectorModel.Props.C02', 'VectorModel.Props.C10', 'VectorModel.Props.C09']
-THEOREM_FILES = ['VectorModel/Props/C02.lean', 'VectorModel/Props/C10.lean', 'VectorModel/Props/C09.lean']
+DOM_FILES = ['Basic', 'Planar', 'SpatialBin', 'SpatialRot', 'LorentzAcc', 'LorentzBin', 'LorentzBoost']
+# regularity theorems (DESIGN.md 9.8): for every module and key, no partial primitive is applied at a singular point on the domain of
+# the refinement theorem (dom_<module>), and the combined statement regular_<module> : hyps -> evalDom AND refinement conclusion
+LEAN_TARGETS = ['VectorModel.Props.C02', 'VectorModel.Props.C10', 'VectorModel.Props.C09', 'VectorModel.Gen.Dom.All', 'VectorModel.Props.Regular'] + \
+    ['VectorModel.Dom.' + f for f in DOM_FILES]
+THEOREM_FILES = ['VectorModel/Props/C02.lean', 'VectorModel/Props/C10.lean', 'VectorModel/Props/C09.lean', 'VectorModel/Props/Regular.lean'] + \
+    ['VectorModel/Dom/' + f + '.lean' for f in DOM_FILES]
 NOT_COVERED = ['the float64 clause (within a small multiple of rounding error): sampled by the numeric correspondences of C03, not proved']
 ALWAYS_SEARCH = True          # the law sweep on the real code is cheap: run it in every tier (exploration, not proof)
 search = search_with("c02")
